@@ -145,14 +145,18 @@ int get_reg_number(const char *token, int max)
 {
   int num = 0;
 
+  if (*token == 0) { return -1; }
+
   while (*token != 0)
   {
     if (*token < '0' || *token > '9') { return -1; }
     num = (num * 10) + (*token - '0');
+
+    // Checked per digit so a long digit string cannot wrap around.
+    if (num > max) { return -1; }
+
     token++;
   }
-
-  if (num > max) { return -1; }
 
   return num;
 }
